@@ -80,6 +80,9 @@ class JsonTypestate:
                 if a.annotation is not None and ast.unparse(a.annotation).split('[')[0].split('.')[-1] in ('Callable', 'Type', 'type'):
                     self.param_state[(fn.fq, a.arg)] = None        # declared to be a function / a class: no document value is one
                     continue
+                if t[0] in ('list', 'set') and strip_opt(t[1])[0] == 'cls' and strip_opt(t[1])[1] in self.prog.classes:
+                    self.param_state[(fn.fq, a.arg)] = None        # a collection of objects of a package class: no document holds those
+                    continue
                 if t[0] in ('dict', 'list', 'any') and fn.name.startswith('_') and not fn.name.startswith('__') and \
                         self.cg.callers(fn):
                     # a private helper is only ever called from this package: the state of its parameters is what the call
